@@ -606,9 +606,17 @@ impl<'a> IrEmitter<'a> {
                         .iter()
                         .map(|s| self.emit_stmt(s))
                         .collect::<Result<_, _>>()?;
+                    // the second parameter keeps the name the body refers to it by (`other` by convention)
+                    let rhs_name = method
+                        .params
+                        .iter()
+                        .find(|p| !p.is_self)
+                        .map(|p| p.name.clone())
+                        .unwrap_or_else(|| "other".to_string());
+                    let rhs = format_ident!("{}", Self::escape_keyword(&rhs_name));
                     trait_impls.push(quote! {
                         impl PartialEq for #target_type {
-                            fn eq(&self, other: &Self) -> bool {
+                            fn eq(&self, #rhs: &Self) -> bool {
                                 #(#body_stmts)*
                             }
                         }
